@@ -154,6 +154,9 @@ def handle (args : List String) : String :=
   | ["expandIdentityRule", x, c] =>
     (match parseOShape x, parseOInts c with
      | some x, some c => showB (expandIdentityRule x c) | _, _ => bad)
+  | ["scatterDyn", st, ax, d, t] =>
+    (match parseOInt st, parseOInt ax, parseOShape d, parseOShape t with
+     | some st, some ax, some d, some t => showB (scatterAllDynamic st ax d t) | _, _, _, _ => bad)
   | ["broadcast", a, b] =>
     (match parseInts a, parseInts b with
      | some a, some b => showOInts (broadcast a b) | _, _ => bad)
